@@ -94,7 +94,8 @@ IsScrollingStep(t, fn) ==
   \/ fn.f \in {"Lf", "Nel"} /\ t.row = t.bottom
   \/ fn.f = "Ri" /\ t.row = t.top
 CursorMoveOK(t, fn, u, dr) ==
-  /\ <<u.col, u.row, u.pw>> = CursorTarget(t, fn)
+  /\ \/ <<u.col, u.row, u.pw>> = CursorTarget(t, fn)
+     \/ (fn.f = "Lf" /\ t.newline /\ <<u.col, u.row, u.pw>> = CursorTarget([t EXCEPT !.newline = FALSE], fn))   \* silent: no statement says what the new-line mode adds to LF
   /\ SameView(t, u) /\ SbSame(t, u, dr)                 \* "None of these commands changes any cell"
   /\ FrameExcept(t, u, {})
 
@@ -149,8 +150,8 @@ ScrollFnOK(t, fn, u, dr) ==
        [] f = "Dl" -> ScrollUpOK(t, u, t.row, IlDlLast(t), NN(a[1]), dr) /\ SameCursor(t, u)
        [] f = "Lf" -> ScrollUpOK(t, u, t.top, t.bottom, 1, dr)                       \* on the bottom margin
                       /\ u.row = t.row
-                      /\ (IF t.newline THEN u.col = 0 /\ ~u.pw
-                          ELSE SameCursor(t, u) \/ (u.col = Min2(t.col, t.cols - 1) /\ ~u.pw))   \* silent: may a scrolling LF drop a pending wrap?
+                      /\ ((t.newline /\ u.col = 0 /\ ~u.pw)                                  \* silent: what the new-line mode adds to LF
+                          \/ SameCursor(t, u) \/ (u.col = Min2(t.col, t.cols - 1) /\ ~u.pw))   \* silent: may a scrolling LF drop a pending wrap?
        [] f = "Nel" -> ScrollUpOK(t, u, t.top, t.bottom, 1, dr) /\ u.col = 0 /\ ~u.pw /\ u.row = t.row
        [] f = "Ri" -> ScrollDownOK(t, u, t.top, t.bottom, 1, dr)                     \* on the top margin
                       /\ (SameCursor(t, u) \/ (u.row = t.row /\ u.col = Min2(t.col, t.cols - 1) /\ ~u.pw))   \* silent: may a scrolling RI drop a pending wrap?
